@@ -12,12 +12,14 @@
 //!   nested3      a@t1 -> b@t2 -> c@t3 -> a, b          (tests/parallel/cycle_nested_three_threads.rs)
 //!   deep         nested cycles entered by four threads (tests/parallel/cycle_nested_deep.rs)
 //!   deep_cond    conditional nested cycles             (tests/parallel/cycle_nested_deep_conditional.rs)
+//!   deep_cond_changed  the same after an input change  (tests/parallel/cycle_nested_deep_conditional_changed.rs)
+//!   random_graph random (cyclic) call graphs, random entry points, 2-4 threads, two revisions
 //! Workloads without it (`--no-default-features`, real OS threads):
 //!   panic_waiter a query panics while another thread waits for it
 //!   cycle_panic  panic in the recovery function of a cross-thread cycle (tests/parallel/cycle_panic.rs)
 //!   cancel_token local cancellation while two threads wait (tests/parallel/cancellation_token_multi_blocked.rs)
 //!   cancel_write a pending write cancels a reader that others wait for
-//!   acyclic, cycle_ab, nested3, deep  (the same programs, free-running)
+//!   and all of the above, free-running
 
 use std::io::Write as _;
 use std::path::{Path, PathBuf};
@@ -104,6 +106,7 @@ fn spin_until(cond: impl Fn() -> bool) {
 
 #[salsa::input]
 struct Inp {
+    #[returns(copy)]
     v: u32,
 }
 
@@ -113,23 +116,23 @@ struct Inp {
 mod acyclic {
     use super::*;
 
-    #[salsa::tracked]
+    #[salsa::tracked(returns(copy))]
     fn leaf1(db: &dyn PDb, i: Inp) -> u32 {
         i.v(db) + 1
     }
-    #[salsa::tracked]
+    #[salsa::tracked(returns(copy))]
     fn leaf2(db: &dyn PDb, i: Inp) -> u32 {
         i.v(db) * 2
     }
-    #[salsa::tracked]
+    #[salsa::tracked(returns(copy))]
     fn mid(db: &dyn PDb, i: Inp) -> u32 {
         leaf1(db, i) + leaf2(db, i)
     }
-    #[salsa::tracked]
+    #[salsa::tracked(returns(copy))]
     fn top_a(db: &dyn PDb, i: Inp) -> u32 {
         mid(db, i) + leaf1(db, i)
     }
-    #[salsa::tracked]
+    #[salsa::tracked(returns(copy))]
     fn top_b(db: &dyn PDb, i: Inp) -> u32 {
         leaf2(db, i) + mid(db, i)
     }
@@ -152,11 +155,11 @@ mod acyclic {
 mod cycle_ab {
     use super::*;
 
-    #[salsa::tracked(cycle_initial=initial)]
+    #[salsa::tracked(returns(copy), cycle_initial=initial)]
     fn query_a(db: &dyn PDb) -> u32 {
         query_b(db)
     }
-    #[salsa::tracked(cycle_initial=initial)]
+    #[salsa::tracked(returns(copy), cycle_initial=initial)]
     fn query_b(db: &dyn PDb) -> u32 {
         (query_a(db) + 1).min(3)
     }
@@ -177,11 +180,11 @@ mod cycle_ab {
 mod cycle_ab_fb {
     use super::*;
 
-    #[salsa::tracked(cycle_result=fallback)]
+    #[salsa::tracked(returns(copy), cycle_result=fallback)]
     fn query_a(db: &dyn PDb) -> u32 {
         query_b(db) | 1
     }
-    #[salsa::tracked(cycle_result=fallback)]
+    #[salsa::tracked(returns(copy), cycle_result=fallback)]
     fn query_b(db: &dyn PDb) -> u32 {
         query_a(db) + 1
     }
@@ -204,15 +207,15 @@ mod cycle_ab_fb {
 mod nested3 {
     use super::*;
 
-    #[salsa::tracked(cycle_initial=initial)]
+    #[salsa::tracked(returns(copy), cycle_initial=initial)]
     fn query_a(db: &dyn PDb) -> u32 {
         query_b(db)
     }
-    #[salsa::tracked(cycle_initial=initial)]
+    #[salsa::tracked(returns(copy), cycle_initial=initial)]
     fn query_b(db: &dyn PDb) -> u32 {
         (query_c(db) + 1).min(3)
     }
-    #[salsa::tracked(cycle_initial=initial)]
+    #[salsa::tracked(returns(copy), cycle_initial=initial)]
     fn query_c(db: &dyn PDb) -> u32 {
         let a = query_a(db);
         let b = query_b(db);
@@ -239,15 +242,15 @@ mod nested3 {
 mod deep {
     use super::*;
 
-    #[salsa::tracked(cycle_initial=initial)]
+    #[salsa::tracked(returns(copy), cycle_initial=initial)]
     fn query_a(db: &dyn PDb) -> u32 {
         query_b(db)
     }
-    #[salsa::tracked(cycle_initial=initial)]
+    #[salsa::tracked(returns(copy), cycle_initial=initial)]
     fn query_b(db: &dyn PDb) -> u32 {
         (query_c(db) + 1).min(3)
     }
-    #[salsa::tracked(cycle_initial=initial)]
+    #[salsa::tracked(returns(copy), cycle_initial=initial)]
     fn query_c(db: &dyn PDb) -> u32 {
         let d = query_d(db);
         let e = query_e(db);
@@ -255,11 +258,11 @@ mod deep {
         let a = query_a(db);
         d.max(e).max(b).max(a)
     }
-    #[salsa::tracked(cycle_initial=initial)]
+    #[salsa::tracked(returns(copy), cycle_initial=initial)]
     fn query_d(db: &dyn PDb) -> u32 {
         query_c(db)
     }
-    #[salsa::tracked(cycle_initial=initial)]
+    #[salsa::tracked(returns(copy), cycle_initial=initial)]
     fn query_e(db: &dyn PDb) -> u32 {
         query_c(db)
     }
@@ -287,15 +290,15 @@ mod deep {
 mod deep_cond {
     use super::*;
 
-    #[salsa::tracked(cycle_initial=initial)]
+    #[salsa::tracked(returns(copy), cycle_initial=initial)]
     fn query_a(db: &dyn PDb) -> u32 {
         query_b(db)
     }
-    #[salsa::tracked(cycle_initial=initial)]
+    #[salsa::tracked(returns(copy), cycle_initial=initial)]
     fn query_b(db: &dyn PDb) -> u32 {
         (query_c(db) + 1).min(3)
     }
-    #[salsa::tracked(cycle_initial=initial)]
+    #[salsa::tracked(returns(copy), cycle_initial=initial)]
     fn query_c(db: &dyn PDb) -> u32 {
         let d = query_d(db);
         if d > 0 {
@@ -308,11 +311,11 @@ mod deep_cond {
             d.max(a)
         }
     }
-    #[salsa::tracked(cycle_initial=initial)]
+    #[salsa::tracked(returns(copy), cycle_initial=initial)]
     fn query_d(db: &dyn PDb) -> u32 {
         query_c(db)
     }
-    #[salsa::tracked(cycle_initial=initial)]
+    #[salsa::tracked(returns(copy), cycle_initial=initial)]
     fn query_e(db: &dyn PDb) -> u32 {
         query_c(db)
     }
@@ -337,6 +340,135 @@ mod deep_cond {
     }
 }
 
+
+// ------------------------------------------------------------------------------------------------
+// conditional nested cycles re-run after an input change (memos from the previous revision exist)
+// (tests/parallel/cycle_nested_deep_conditional_changed.rs)
+// ------------------------------------------------------------------------------------------------
+mod deep_cond_changed {
+    use super::*;
+    use salsa::Setter as _;
+
+    #[salsa::tracked(returns(copy), cycle_initial=initial)]
+    fn query_a(db: &dyn PDb, i: Inp) -> u32 {
+        query_b(db, i)
+    }
+    #[salsa::tracked(returns(copy), cycle_initial=initial)]
+    fn query_b(db: &dyn PDb, i: Inp) -> u32 {
+        (query_c(db, i) + i.v(db).max(1)).min(3)
+    }
+    #[salsa::tracked(returns(copy), cycle_initial=initial)]
+    fn query_c(db: &dyn PDb, i: Inp) -> u32 {
+        let d = query_d(db, i);
+        if d > 0 {
+            let e = query_e(db, i);
+            let b = query_b(db, i);
+            d.max(e).max(b)
+        } else {
+            let a = query_a(db, i);
+            d.max(a)
+        }
+    }
+    #[salsa::tracked(returns(copy), cycle_initial=initial)]
+    fn query_d(db: &dyn PDb, i: Inp) -> u32 {
+        query_c(db, i)
+    }
+    #[salsa::tracked(returns(copy), cycle_initial=initial)]
+    fn query_e(db: &dyn PDb, i: Inp) -> u32 {
+        query_c(db, i)
+    }
+    fn initial(_db: &dyn PDb, _id: salsa::Id, _i: Inp) -> u32 {
+        0
+    }
+
+    pub fn run() {
+        let mut db = Db::default();
+        let i = Inp::new(&db, 0);
+        match next_random() % 4 {
+            0 => drop(query_a(&db, i)),
+            1 => drop(query_b(&db, i)),
+            2 => drop(query_d(&db, i)),
+            _ => drop(query_e(&db, i)),
+        }
+        i.set_v(&mut db).to(1);
+        let (d1, d2, d3, d4) = (db.clone(), db.clone(), db.clone(), db.clone());
+        let t1 = thread::spawn(move || query_a(&d1, i));
+        let t2 = thread::spawn(move || query_b(&d2, i));
+        let t3 = thread::spawn(move || query_d(&d3, i));
+        let t4 = thread::spawn(move || query_e(&d4, i));
+        let r = (
+            t1.join().unwrap(),
+            t2.join().unwrap(),
+            t3.join().unwrap(),
+            t4.join().unwrap(),
+        );
+        assert_eq!(r, (3, 3, 3, 3));
+    }
+}
+
+// ------------------------------------------------------------------------------------------------
+// random call graphs (cyclic in general), random entry points, 2-4 threads, two revisions
+// ------------------------------------------------------------------------------------------------
+mod random_graph {
+    use super::*;
+    use salsa::Setter as _;
+
+    #[salsa::input]
+    struct Node {
+        #[returns(ref)]
+        succs: Vec<Node>,
+        #[returns(copy)]
+        base: u32,
+    }
+
+    #[salsa::tracked(returns(copy), cycle_initial=initial)]
+    fn value(db: &dyn PDb, n: Node) -> u32 {
+        let mut v = n.base(db);
+        for s in n.succs(db) {
+            v = v.max(value(db, *s) + 1);
+        }
+        v.min(4)
+    }
+    fn initial(_db: &dyn PDb, _id: salsa::Id, _n: Node) -> u32 {
+        0
+    }
+
+    pub fn run() {
+        let mut db = Db::default();
+        let n_nodes = 3 + (next_random() % 4) as usize;
+        let nodes: Vec<Node> = (0..n_nodes)
+            .map(|_| Node::new(&db, Vec::new(), (next_random() % 2) as u32))
+            .collect();
+        for n in &nodes {
+            let k = 1 + (next_random() % 3) as usize;
+            let succs: Vec<Node> = (0..k)
+                .map(|_| nodes[(next_random() as usize) % n_nodes])
+                .collect();
+            n.set_succs(&mut db).to(succs);
+        }
+        for round in 0..2 {
+            let n_threads = 2 + (next_random() % 3) as usize;
+            let handles: Vec<_> = (0..n_threads)
+                .map(|_| {
+                    let d = db.clone();
+                    let a = nodes[(next_random() as usize) % n_nodes];
+                    let b = nodes[(next_random() as usize) % n_nodes];
+                    thread::spawn(move || (value(&d, a), value(&d, b)))
+                })
+                .collect();
+            for h in handles {
+                let _ = h.join().unwrap();
+            }
+            if round == 0 {
+                // change one node between the rounds
+                let n = nodes[(next_random() as usize) % n_nodes];
+                let b = n.base(&db);
+                n.set_base(&mut db).to(b + 1);
+            }
+        }
+    }
+}
+
 // ------------------------------------------------------------------------------------------------
 // free-running only: panics and cancellation
 // ------------------------------------------------------------------------------------------------
@@ -344,7 +476,7 @@ mod deep_cond {
 mod panic_waiter {
     use super::*;
 
-    #[salsa::tracked]
+    #[salsa::tracked(returns(copy))]
     fn slow_panics(db: &dyn PDb) -> u32 {
         db.set_stage(1);
         // wait until the other thread has blocked on us (or give up), then panic
@@ -352,7 +484,7 @@ mod panic_waiter {
         panic!("injected panic");
     }
 
-    #[salsa::tracked]
+    #[salsa::tracked(returns(copy))]
     fn outer(db: &dyn PDb) -> u32 {
         slow_panics(db) + 1
     }
@@ -374,13 +506,13 @@ mod panic_waiter {
 mod cycle_panic {
     use super::*;
 
-    #[salsa::tracked(cycle_fn=cycle_fn, cycle_initial=initial)]
+    #[salsa::tracked(returns(copy), cycle_fn=cycle_fn, cycle_initial=initial)]
     fn query_a(db: &dyn PDb) -> u32 {
         db.set_stage(1);
         spin_until(|| db.stage() >= 2);
         query_b(db)
     }
-    #[salsa::tracked(cycle_fn=cycle_fn, cycle_initial=initial)]
+    #[salsa::tracked(returns(copy), cycle_fn=cycle_fn, cycle_initial=initial)]
     fn query_b(db: &dyn PDb) -> u32 {
         spin_until(|| db.stage() >= 1);
         db.set_stage(2);
@@ -408,11 +540,11 @@ mod cancel_token {
     use super::*;
     use salsa::Database as _;
 
-    #[salsa::tracked]
+    #[salsa::tracked(returns(copy))]
     fn query_a(db: &dyn PDb) -> u32 {
         query_b(db)
     }
-    #[salsa::tracked]
+    #[salsa::tracked(returns(copy))]
     fn query_b(db: &dyn PDb) -> u32 {
         db.set_stage(1);
         // wait for the two other threads to block on query_a, then for the cancellation
@@ -421,7 +553,7 @@ mod cancel_token {
         spin_until(|| db.stage() >= 4);
         query_c(db)
     }
-    #[salsa::tracked]
+    #[salsa::tracked(returns(copy))]
     fn query_c(_db: &dyn PDb) -> u32 {
         42
     }
@@ -448,7 +580,7 @@ mod cancel_write {
     use super::*;
     use salsa::Setter as _;
 
-    #[salsa::tracked]
+    #[salsa::tracked(returns(copy))]
     fn reader(db: &dyn PDb, i: Inp) -> u32 {
         db.set_stage(1);
         // wait for a waiter and for the writer to request cancellation, then touch salsa again
@@ -458,7 +590,7 @@ mod cancel_write {
         std::thread::sleep(std::time::Duration::from_millis(2));
         inner(db, i)
     }
-    #[salsa::tracked]
+    #[salsa::tracked(returns(copy))]
     fn inner(db: &dyn PDb, i: Inp) -> u32 {
         i.v(db) + 1
     }
@@ -487,6 +619,19 @@ mod cancel_write {
 // ------------------------------------------------------------------------------------------------
 
 static COUNTER: AtomicUsize = AtomicUsize::new(0);
+
+/// deterministic pseudo-random numbers for the generated workloads (seeded by --seed; not a
+/// shuttle scheduling point)
+static RNG: std::sync::atomic::AtomicU64 = std::sync::atomic::AtomicU64::new(0x9E3779B97F4A7C15);
+
+fn next_random() -> u64 {
+    let mut x = RNG.load(StdOrdering::SeqCst);
+    x ^= x << 13;
+    x ^= x >> 7;
+    x ^= x << 17;
+    RNG.store(x, StdOrdering::SeqCst);
+    x >> 11
+}
 
 fn write_trace(dir: &Path, name: &str) {
     let lines = salsa::verif_take_proto_trace();
@@ -539,6 +684,8 @@ const WORKLOADS: &[Workload] = &[
     ("nested3", nested3::run),
     ("deep", deep::run),
     ("deep_cond", deep_cond::run),
+    ("deep_cond_changed", deep_cond_changed::run),
+    ("random_graph", random_graph::run),
 ];
 
 #[cfg(not(feature = "shuttle"))]
@@ -547,6 +694,10 @@ const WORKLOADS: &[Workload] = &[
     ("cycle_ab", cycle_ab::run),
     ("nested3", nested3::run),
     ("deep", deep::run),
+    ("deep_cond", deep_cond::run),
+    ("deep_cond_changed", deep_cond_changed::run),
+    ("random_graph", random_graph::run),
+    ("cycle_ab_fb", cycle_ab_fb::run),
     ("panic_waiter", panic_waiter::run),
     ("cycle_panic", cycle_panic::run),
     ("cancel_token", cancel_token::run),
@@ -588,6 +739,7 @@ fn drive(name: &'static str, f: fn(), args: &Args) {
 
 fn main() {
     let args = parse_args();
+    RNG.store(args.seed.wrapping_mul(0x9E3779B97F4A7C15) | 1, StdOrdering::SeqCst);
     std::fs::create_dir_all(&args.out).expect("create output directory");
     let mut ran = 0;
     for (name, f) in WORKLOADS {
